@@ -109,6 +109,20 @@ func parseOps(s string) ([]*op, error) {
 
 // replay re-evaluates the property on one history and prints the state it produces.
 func replay(s string) int {
+	if i := strings.Index(s, "||"); i >= 0 { // witness of checkInterleaved
+		a, err := parseOps(s[:i])
+		b, err2 := parseOps(s[i+2:])
+		if err != nil || err2 != nil {
+			fmt.Fprintln(out, "ERROR\tbad interleaved witness")
+			return 2
+		}
+		checkInterleaved(a, b)
+		if len(failed) > 0 {
+			return 1
+		}
+		fmt.Fprintln(out, "PASS")
+		return 0
+	}
 	ops, err := parseOps(s)
 	if err != nil {
 		fmt.Fprintln(out, "ERROR\t"+err.Error())
